@@ -19,6 +19,20 @@ def known_findings(prop):
 def known_keys(prop):
     return sorted(k for k, e in known_findings(prop).items() if e.get('status') == 'known')
 
+class Undecided:
+    """value of a path that ran into a library call without a model (or another unsupported construct)"""
+    def __init__(self, msg): self.msg = msg
+
+def guarded(harness):
+    """harness wrapper: a path the models cannot follow is returned as Undecided instead of aborting the whole instance, so that
+    the native build can be tried on a solver-chosen input of the path so far (Result.undecided_path)"""
+    def h(I):
+        try:
+            return harness(I)
+        except Unsupported as e:
+            return Undecided(str(e))
+    return h
+
 class Result:
     """what one instance (one bounded sub-problem, explored path-completely) found"""
     def __init__(self, name):
@@ -36,6 +50,7 @@ class Result:
         self.steps = 0
         self.wall_s = 0.0
         self.notes = []
+        self.undecided = []
         self.xval = 0              # path witnesses on which the native build agreed with the symbolic result
         self.xval_classes = {}
     def want_xval(self, cls, per_class=None):
@@ -57,6 +72,26 @@ class Result:
             self.xval += 1
         else:
             self.violations.append({'what': 'native build and symbolic result disagree on a path witness: ' + what, 'input': inp, 'xval': True})
+    def undecided_path(self, pr, replay_fn, make_rec):
+        """a path the models cannot follow: the native build is run on a solver-chosen input of the path so far and judged by the
+        concrete oracle.  A natively confirmed violation is reported; otherwise the instance stays undecided (exit 2 unless
+        another path of the run yields a confirmed counterexample)."""
+        msg = pr.value.msg
+        try:
+            rec = make_rec()
+            rep, detail = replay_fn({'input': rec}) if rec is not None else (False, '')
+        except Exception as e:
+            rep, detail, rec = False, str(e), None
+        if rep:
+            self.violations.append({'what': 'found by running the native build on an input of a path the models cannot follow (%s): %s' % (msg[:90], str(detail)[:300]), 'input': rec, 'xval': True})
+        else:
+            self.undecided.append(msg)
+    def finish(self):
+        if self.undecided and not self.violations:
+            raise Unsupported(self.undecided[0])
+        if self.undecided:
+            self.notes.append('%d path(s) could not be followed by the models: %s' % (len(self.undecided), self.undecided[0][:120]))
+        return self.to_dict()
     def xval_path(self, cls, replay_fn, make_rec):
         """cross-validate one passing path: run the native build on a solver-chosen input of this path and judge it with
         the concrete oracle (the driver's replay function).  Symbolically the path satisfies the property; if the native
